@@ -26,6 +26,7 @@ import SvModel.Proofs.SwapSys
 import SvModel.Proofs.MoveCtorAll
 import SvModel.Proofs.MoveAssignAll
 import SvModel.Proofs.CopyAssignProp
+import SvModel.Proofs.SwapAll
 import SvModel.Api
 
 namespace SvModel.System
@@ -38,7 +39,7 @@ inductive MOp (α : Type) where
   | dtor (c : Nat)
   | on (c : Nat) (op : SOp α)
   | copyAssign (c o : Nat)                   -- c = o (operator= / assign (const small_vector&)): equal, non-propagating or propagating allocators
-  | swap (c o : Nat)                         -- c.swap (o), same type; allocators equal or propagating on swap
+  | swap (c o : Nat)                         -- c.swap (o), same type, any allocator relation (every path)
   | ctorMove (c o : Nat)                     -- small_vector (std::move (o)), any pair of inline capacities
   | moveAssign (c o : Nat)                   -- c = std::move (o), any pair of inline capacities, any allocator relation
 
@@ -54,7 +55,7 @@ def MOp.valid (cfg : Cfg) (U : List Nat) (s : St α) : MOp α → Prop
   | .copyAssign c o => c ∈ s.A ∧ o ∈ s.A ∧ o ≠ c ∧
       ((s.w.hdr o).alloc = (s.w.hdr c).alloc ∨ cfg.pocca = false ∨ copyAssignPropagating cfg.policy = true)
   | .swap c o => c ∈ s.A ∧ o ∈ s.A ∧ c ≠ o ∧ (s.w.hdr c).N = (s.w.hdr o).N ∧
-      ((s.w.hdr c).N = 0 → (s.w.hdr c).inl = (s.w.hdr o).inl) ∧ SwapAllocOK cfg s.w c o
+      ((s.w.hdr c).N = 0 → (s.w.hdr c).inl = (s.w.hdr o).inl) ∧ (allocationsAreSwappable cfg.policy = true → SwapAllocOK cfg s.w c o)
   | .ctorMove c o => c ∈ U ∧ c ∉ s.A ∧ o ∈ s.A ∧ ((s.w.hdr c).N = 0 → (s.w.hdr o).N = 0 → (s.w.hdr c).inl = (s.w.hdr o).inl)
   | .moveAssign c o => c ∈ s.A ∧ o ∈ s.A ∧ c ≠ o ∧ ((s.w.hdr c).N = 0 → (s.w.hdr o).N = 0 → (s.w.hdr c).inl = (s.w.hdr o).inl) ∧
       (allocationsAreMovable cfg.policy = true → cfg.policy.pocma = true ∨ (s.w.hdr c).alloc = (s.w.hdr o).alloc)
@@ -195,8 +196,9 @@ theorem step_sys (cfg : Cfg) (U : List Nat) (hpol : StrongPolicy cfg) (s : St α
   | swap c o =>
     obtain ⟨hc, ho, hco, hN, hnull, hal⟩ := hv
     rw [← hh0] at hN hnull
-    have hal0 : SwapAllocOK cfg w0 c o := by unfold SwapAllocOK at hal ⊢; rw [hh0]; exact hal
-    have h := SysAll.swap hs0 hc ho hco hN hnull hal0
+    have hal0 : allocationsAreSwappable cfg.policy = true → SwapAllocOK cfg w0 c o := by
+      intro h; have := hal h; unfold SwapAllocOK at this ⊢; rw [hh0]; exact this
+    have h := SysAll.swapAny hs0 hc ho hco hN hnull hal0
     cases hr : SvModel.swap cfg c o w0 with
     | ok r w' => rw [hr] at h; simp only [MOp.run, hr]; exact h.1
     | thrown e w' => rw [hr] at h; simp only [MOp.run, hr]; exact h.2.1
@@ -403,8 +405,9 @@ theorem step_tracks (cfg : Cfg) (U : List Nat) (hpol : StrongPolicy cfg) (s : St
     obtain ⟨hc, ho, hco, hN, hnull, hal⟩ := hv
     have hoc : o ≠ c := fun e => hco e.symm
     rw [← hh0] at hN hnull
-    have hal0 : SwapAllocOK cfg w0 c o := by unfold SwapAllocOK at hal ⊢; rw [hh0]; exact hal
-    have h := SysAll.swap hs0 hc ho hco hN hnull hal0
+    have hal0 : allocationsAreSwappable cfg.policy = true → SwapAllocOK cfg w0 c o := by
+      intro h; have := hal h; unfold SwapAllocOK at this ⊢; rw [hh0]; exact this
+    have h := SysAll.swapAny hs0 hc ho hco hN hnull hal0
     cases hr : SvModel.swap cfg c o w0 with
     | ok r w' =>
       rw [hr] at h; simp only [MOp.run, hr]
@@ -413,7 +416,7 @@ theorem step_tracks (cfg : Cfg) (U : List Nat) (hpol : StrongPolicy cfg) (s : St
       · rw [hdo]; simp only [MOp.spec, upd_same]; exact h.2.2.1 _ (ht0 c hc)
       · by_cases hdc : d = c
         · rw [hdc]; simp only [MOp.spec, upd_other _ _ _ _ hco, upd_same]; exact h.2.1 _ (ht0 o ho)
-        · simp only [MOp.spec, upd_other _ _ _ _ hdo, upd_other _ _ _ _ hdc]; exact h.2.2.2.1 d hd hdc hdo _ (ht0 d hd)
+        · simp only [MOp.spec, upd_other _ _ _ _ hdo, upd_other _ _ _ _ hdc]; exact h.2.2.2 d hd hdc hdo _ (ht0 d hd)
     | thrown e w' =>
       rw [hr] at h; simp only [MOp.run, hr]
       refine ⟨(fun h' => by cases h'), fun _ => ?_⟩
@@ -690,5 +693,31 @@ example : let s9 := run cfgP ⟨initWorld 2 3, []⟩ (exCA.take 9)
     returned cfgP (run cfgP ⟨initWorld 2 3, []⟩ (exCA.take 8)) (.copyAssign 2 1, [1]) = false ∧ (s9.w.hdr 2).alloc = 3 ∧ s9.w.live.length = 3 ∧
     (s10.w.hdr 2).alloc = 1 ∧ (s10.w.hdr 2).data = (s10.w.hdr 2).inl ∧ s10.w.live.length = 2 ∧
     (s10.w.mem (s10.w.hdr 2).data).take (s10.w.hdr 2).size = [.obj (.val 3), .obj (.val 4)] := by decide +kernel
+
+/-- non-vacuity for `swap_unequal_no_propagate` (allocators 1 and 2, unequal, not propagating): the reallocating path with
+    the allocator refusing, with a throw while the elements are moved into the new block (two elements of the source
+    moved-from, block given back), with a throw while the old elements are assigned over (the inner handler destroys the
+    new block's elements: all five values are gone but both containers are valid, nothing leaked), then returning; then
+    the element-wise paths in both orders -/
+def exSU : List (MOp Int × List Nat) :=
+  [(.ctorVals 0 1 [1, 2], []), (.ctorVals 1 2 [3, 4, 5, 6, 7], []),
+   (.swap 0 1, [0]), (.swap 0 1, [3]), (.swap 0 1, [6]), (.swap 0 1, []),
+   (.swap 0 1, []), (.on 0 (.popBack), []), (.swap 1 0, []),
+   (.dtor 0, []), (.dtor 1, [])]
+
+example : allocationsAreSwappable Ex.cfgT.policy = false ∧
+    (run Ex.cfgT ⟨initWorld 2 3, []⟩ exSU).A = [] ∧ (run Ex.cfgT ⟨initWorld 2 3, []⟩ exSU).w.live = [] ∧ (run Ex.cfgT ⟨initWorld 2 3, []⟩ exSU).w.ub = [] := by decide +kernel
+example : let s2 := run Ex.cfgT ⟨initWorld 2 3, []⟩ (exSU.take 2)
+    let s3 := run Ex.cfgT ⟨initWorld 2 3, []⟩ (exSU.take 3)
+    let s4 := run Ex.cfgT ⟨initWorld 2 3, []⟩ (exSU.take 4)
+    let s5 := run Ex.cfgT ⟨initWorld 2 3, []⟩ (exSU.take 5)
+    let s6 := run Ex.cfgT ⟨initWorld 2 3, []⟩ (exSU.take 6)
+    returned Ex.cfgT s2 (.swap 0 1, [0]) = false ∧ returned Ex.cfgT s3 (.swap 0 1, [3]) = false ∧ returned Ex.cfgT s4 (.swap 0 1, [6]) = false ∧
+    s3.w.mem (s3.w.hdr 1).data = s2.w.mem (s2.w.hdr 1).data ∧ s3.w.live = [5] ∧ s4.w.live = [5] ∧ s5.w.live = [5] ∧
+    (s4.w.mem (s4.w.hdr 1).data).take (s4.w.hdr 1).size = [.obj .husk, .obj .husk, .obj (.val 5), .obj (.val 6), .obj (.val 7)] ∧
+    (s5.w.mem (s5.w.hdr 1).data).take (s5.w.hdr 1).size = [.obj .husk, .obj .husk, .obj .husk, .obj .husk, .obj .husk] ∧
+    (s5.w.mem (s5.w.hdr 0).data).take (s5.w.hdr 0).size = [.obj (.val 1), .obj (.val 2)] ∧
+    (s6.w.hdr 0).alloc = 1 ∧ s6.w.owner (s6.w.hdr 0).data = 1 ∧ (s6.w.hdr 0).size = 5 ∧
+    (s6.w.mem (s6.w.hdr 1).data).take (s6.w.hdr 1).size = [.obj (.val 1), .obj (.val 2)] := by decide +kernel
 
 end SvModel.System
